@@ -603,24 +603,33 @@ func drawCase(t *rapid.T) Case {
 		c.Default = rapid.Bool().Draw(t, "default")
 	}
 	// target number of items: 0 … 6m with the interesting load factors over-represented
+	// (rapid's integer generators favour the low end of a range, so a position in 33 steps plus a small
+	// jitter is drawn instead of one number from a range that is up to 400 000 wide)
+	between := func(lo, hi int) int {
+		n := lo + (hi-lo)*rapid.IntRange(0, 32).Draw(t, "pos")/32 + rapid.IntRange(0, 3).Draw(t, "jitter")
+		if n > hi {
+			n = hi
+		}
+		return n
+	}
 	var n int
 	switch rapid.IntRange(0, 11).Draw(t, "load") {
 	case 0:
 		n = rapid.IntRange(0, 3).Draw(t, "n")
 	case 1:
-		n = rapid.IntRange(0, m/20+1).Draw(t, "n")
+		n = between(0, m/20+1)
 	case 2:
-		n = rapid.IntRange(m/8, m).Draw(t, "n")
+		n = between(m/8, m)
 	case 3:
-		n = rapid.IntRange(m, 2*m).Draw(t, "n")
+		n = between(m, 2*m)
 	case 4, 5:
-		n = rapid.IntRange(2*m, 3*m).Draw(t, "n") // hand-over from linear counting to the raw estimator
+		n = between(2*m, 3*m) // hand-over from linear counting to the raw estimator
 	case 6, 7:
-		n = rapid.IntRange(3*m, 5*m).Draw(t, "n")
+		n = between(3*m, 5*m)
 	case 8, 9:
-		n = rapid.IntRange(5*m, 6*m).Draw(t, "n")
+		n = between(5*m, 6*m)
 	default:
-		n = rapid.IntRange(0, 6*m).Draw(t, "n")
+		n = between(0, 6*m)
 	}
 	nseg := rapid.IntRange(1, 3).Draw(t, "nseg")
 	left := n
@@ -702,7 +711,7 @@ func drawCase(t *rapid.T) Case {
 var specHLL = pbt.Register(pbt.Spec[Case]{
 	Prop: "C14", Name: "hll-model",
 	Rule: "precision 4..16, OfferLong/Offer, multisets of 0..6m items (random, sequential, strided/high-bit-only, repeated segments, items crafted to a chosen register and rank), a reordered run with 0-90% repetitions, a split into 1-5 (optionally overlapping) parts that are merged; golib vs an independent register model for Offer's result, bytes, estimate, merge laws, rebuild; non-trivial = more than 2.5m distinct items (raw-estimator range) or a merge of overlapping parts; distinct by (p, path, register state, number of distinct items)",
-	Quick: 600, Thorough: 60000,
+	Quick: 4000, Thorough: 150000,
 	Draw: drawCase,
 	Run:  runCase,
 })
@@ -837,7 +846,7 @@ func runRegs(c RCase) *pbt.Result {
 var specRegs = pbt.Register(pbt.Spec[RCase]{
 	Prop: "C14", Name: "registerset-model",
 	Rule: "register sets of 2^0..2^10 registers (power-of-two counts, as the counter creates them) driven by 1-40 UpdateIfGreater/Set/Get/Merge operations with 5-bit values 0..31 at positions biased to word borders, against a []uint8 model and its six-per-word packing after every operation; non-trivial = >= 3 operations of >= 2 kinds; distinct by final state",
-	Quick: 2000, Thorough: 100000,
+	Quick: 20000, Thorough: 200000,
 	Draw: func(t *rapid.T) RCase {
 		c := RCase{Log2: rapid.IntRange(0, 10).Draw(t, "log2")}
 		count := 1 << uint(c.Log2)
